@@ -677,27 +677,34 @@ Qed.
 Lemma agreeW_wake_eq b W : b_wake b = W -> agreeW b W -> agree b.
 Proof. intros <- H. apply agreeW_self. exact H. Qed.
 
+(** how a frame changes the Blocked states: not at all, or - answered NoResponse - the
+    issuing connection becomes Blocked *)
+Definition blk_change (c : Z) (rep : frame) (b b' : blocking) : Prop :=
+  b_blk b' = b_blk b \/ (rep = FNoResponse /\ exists st, b_blk b' = zset_ c st (b_blk b)).
+
 Lemma h_bpop_inv left now s b c dbi parts oms rep s' b' cn :
   agree b -> zlookup c (b_blk b) = None -> zlookup c (s_conns s) = Some cn ->
   h_bpop left now s b c dbi parts oms = (rep, s', b') ->
-  agree b' /\ s_conns s' = s_conns s /\ b_crashed b' = b_crashed b /\ b_out b' = b_out b.
+  agree b' /\ s_conns s' = s_conns s /\ b_crashed b' = b_crashed b /\ b_out b' = b_out b /\ blk_change c rep b b'.
 Proof.
   intros HA Hnb Hcn H. unfold h_bpop in H.
   assert (Same : forall r0 s0, s_conns s0 = s_conns s -> (r0, s0, b) = (rep, s', b') ->
-            agree b' /\ s_conns s' = s_conns s /\ b_crashed b' = b_crashed b /\ b_out b' = b_out b).
-  { intros r0 s0 Hs E. injection E as E1 E2 E3. subst s0 b'. split; [exact HA|]. split; [exact Hs|]. split; reflexivity. }
+            agree b' /\ s_conns s' = s_conns s /\ b_crashed b' = b_crashed b /\ b_out b' = b_out b /\ blk_change c rep b b').
+  { intros r0 s0 Hs E. injection E as E1 E2 E3. subst s0 b'. split; [exact HA|]. split; [exact Hs|].
+    split; [reflexivity|]. split; [reflexivity|]. left. reflexivity. }
   destruct (len parts <? 3); [eapply Same; [reflexivity|exact H]|].
   destruct (timeout_of (last parts FNull) oms) as [tmo|]; [|eapply Same; [reflexivity|exact H]].
   destruct (all_bulks (removelast (tl parts))) as [keys|]; [|eapply Same; [reflexivity|exact H]].
   destruct (fast_path left (get_db s dbi) keys) as [[r0|] d'].
   - eapply Same; [|exact H]. reflexivity.
-  - rewrite Hcn in H. injection H as E1 E2 E3. subst s' b'.
-    split; [|split; [reflexivity|split; reflexivity]].
+  - rewrite Hcn in H. injection H as E1 E2 E3. subst s' b' rep.
     set (st := {| bl_db := dbi; bl_keys := keys; bl_dl := option_map (fun ms => now + ms) tmo; bl_left := left |}).
-    apply agreeW_wake_eq with (W := b_wake b); [reflexivity|].
-    apply agreeW_self in HA.
-    exact (agree_register_gen b (b_wake b) c st (zset_ c st (b_blk b)) HA Hnb (zlookup_zset_same _ _ _)
-             (fun c2 Hne => zlookup_zset_other c c2 st (b_blk b) Hne)).
+    split; [|split; [reflexivity|split; [reflexivity|split; [reflexivity|]]]].
+    + apply agreeW_wake_eq with (W := b_wake b); [reflexivity|].
+      apply agreeW_self in HA.
+      exact (agree_register_gen b (b_wake b) c st (zset_ c st (b_blk b)) HA Hnb (zlookup_zset_same _ _ _)
+               (fun c2 Hne => zlookup_zset_other c c2 st (b_blk b) Hne)).
+    + right. split; [reflexivity|]. exists st. reflexivity.
 Qed.
 
 Lemma bpop_parts_names nm rest :
@@ -710,46 +717,47 @@ Lemma bnormal_inv now s b c dbi parts oracle oms rep s' b' :
   agree b ->
   (bpop_parts parts = true -> zlookup c (b_blk b) = None /\ exists cn, zlookup c (s_conns s) = Some cn) ->
   bnormal now s b c dbi parts oracle oms = (rep, s', b') ->
-  agree b' /\ conns_rel s s' /\ b_crashed b' = b_crashed b /\ b_out b' = b_out b.
+  agree b' /\ conns_rel s s' /\ b_crashed b' = b_crashed b /\ b_out b' = b_out b /\
+  (if bpop_parts parts then blk_change c rep b b' else b_blk b' = b_blk b).
 Proof.
   intros HA Hg H. unfold bnormal in H.
   assert (NC : forall nmx, (let (r, s'0) := normal_command now s c dbi parts oracle in (r, s'0, notify_after_push b dbi nmx parts r)) = (rep, s', b') ->
-            agree b' /\ conns_rel s s' /\ b_crashed b' = b_crashed b /\ b_out b' = b_out b).
+            agree b' /\ conns_rel s s' /\ b_crashed b' = b_crashed b /\ b_out b' = b_out b /\ b_blk b' = b_blk b).
   { intros nmx E. destruct (normal_command now s c dbi parts oracle) as [r s1] eqn:En. injection E as E1 E2 E3. subst.
-    destruct (notify_after_push_fields b dbi nmx parts rep) as (_ & F2 & F3 & _).
-    split; [apply agree_notify_after_push; exact HA|]. split; [eapply normal_command_rel; exact En|]. split; assumption. }
+    destruct (notify_after_push_fields b dbi nmx parts rep) as (F1 & F2 & F3 & _).
+    split; [apply agree_notify_after_push; exact HA|]. split; [eapply normal_command_rel; exact En|]. repeat split; assumption. }
   destruct parts as [|first rest].
   { destruct (normal_command now s c dbi [] oracle) as [r s1] eqn:En. injection H as E1 E2 E3. subst.
-    split; [exact HA|]. split; [eapply normal_command_rel; exact En|]. split; reflexivity. }
+    split; [exact HA|]. split; [eapply normal_command_rel; exact En|]. repeat split; reflexivity. }
   destruct first as [| | |nm| | | | | | | | |];
     try (destruct (normal_command now s c dbi _ oracle) as [r s1] eqn:En; injection H as E1 E2 E3; subst;
-         split; [exact HA|]; split; [eapply normal_command_rel; exact En|]; split; reflexivity).
-  rewrite bpop_parts_names in Hg.
+         split; [exact HA|]; split; [eapply normal_command_rel; exact En|]; repeat split; reflexivity).
+  rewrite bpop_parts_names in *.
   destruct (beq (upper nm) (bs "BLPOP")) eqn:E1.
   { destruct (Hg eq_refl) as [Hnb [cn Hcn]].
-    destruct (h_bpop_inv _ _ _ _ _ _ _ _ _ _ _ _ HA Hnb Hcn H) as (G1 & G2 & G3 & G4).
-    split; [exact G1|]. split; [apply conns_rel_eq; exact G2|]. split; assumption. }
+    destruct (h_bpop_inv _ _ _ _ _ _ _ _ _ _ _ _ HA Hnb Hcn H) as (G1 & G2 & G3 & G4 & G5).
+    split; [exact G1|]. split; [apply conns_rel_eq; exact G2|]. cbn [orb]. repeat split; assumption. }
   destruct (beq (upper nm) (bs "BRPOP")) eqn:E2.
   { destruct (Hg eq_refl) as [Hnb [cn Hcn]].
-    destruct (h_bpop_inv _ _ _ _ _ _ _ _ _ _ _ _ HA Hnb Hcn H) as (G1 & G2 & G3 & G4).
-    split; [exact G1|]. split; [apply conns_rel_eq; exact G2|]. split; assumption. }
-  eapply NC. exact H.
+    destruct (h_bpop_inv _ _ _ _ _ _ _ _ _ _ _ _ HA Hnb Hcn H) as (G1 & G2 & G3 & G4 & G5).
+    split; [exact G1|]. split; [apply conns_rel_eq; exact G2|]. cbn [orb]. repeat split; assumption. }
+  cbn [orb]. eapply NC. exact H.
 Qed.
 
 Lemma bexec_queue_inv now dbi : forall q s b acc reps s' b',
   agree b -> forallb (fun p => negb (bpop_parts p)) q = true ->
   bexec_queue now s b dbi q acc = (reps, s', b') ->
-  agree b' /\ conns_rel s s' /\ b_crashed b' = b_crashed b /\ b_out b' = b_out b.
+  agree b' /\ conns_rel s s' /\ b_crashed b' = b_crashed b /\ b_out b' = b_out b /\ b_blk b' = b_blk b.
 Proof.
   induction q as [|parts q IH]; intros s b acc reps s' b' HA Hq H; cbn [bexec_queue] in H.
-  - injection H as E1 E2 E3. subst. split; [exact HA|]. split; [apply conns_rel_refl|]. split; reflexivity.
+  - injection H as E1 E2 E3. subst. split; [exact HA|]. split; [apply conns_rel_refl|]. repeat split; reflexivity.
   - cbn [forallb] in Hq. apply andb_true_iff in Hq. destruct Hq as [Hp Hq]. apply negb_true_iff in Hp.
     destruct (bnormal now s b 0 dbi parts None None) as [[rep s1] b1] eqn:En.
     assert (Hg : bpop_parts parts = true -> zlookup 0 (b_blk b) = None /\ exists cn, zlookup 0 (s_conns s) = Some cn)
       by (intros Hb; congruence).
-    destruct (bnormal_inv _ _ _ _ _ _ _ _ _ _ _ HA Hg En) as (G1 & G2 & G3 & G4).
-    destruct (IH _ _ _ _ _ _ G1 Hq H) as (K1 & K2 & K3 & K4).
-    split; [exact K1|]. split; [eapply conns_rel_trans; eauto|]. split; congruence.
+    destruct (bnormal_inv _ _ _ _ _ _ _ _ _ _ _ HA Hg En) as (G1 & G2 & G3 & G4 & G5). rewrite Hp in G5.
+    destruct (IH _ _ _ _ _ _ G1 Hq H) as (K1 & K2 & K3 & K4 & K5).
+    split; [exact K1|]. split; [eapply conns_rel_trans; eauto|]. repeat split; congruence.
 Qed.
 
 (** one frame: agreement, "nothing blocking is queued", no connection 0 *)
@@ -757,14 +765,14 @@ Lemma bprocess_frame_inv now s b c cn f oracle oms rep s' b' :
   agree b -> queues_ok s -> zlookup 0 (s_conns s) = None ->
   zlookup c (s_conns s) = Some cn -> zlookup c (b_blk b) = None -> bpop_frame f && c_intx cn = false ->
   bprocess_frame now s b c f oracle oms = (rep, s', b') ->
-  agree b' /\ queues_ok s' /\ dom_same s s' /\ b_crashed b' = b_crashed b /\ b_out b' = b_out b.
+  agree b' /\ queues_ok s' /\ dom_same s s' /\ b_crashed b' = b_crashed b /\ b_out b' = b_out b /\ blk_change c rep b b'.
 Proof.
   intros HA Q H0 Hc Hnb Hg H. unfold bprocess_frame in H.
   assert (Pass : (let (r, s'0) := process_frame now s c f oracle in (r, s'0, b)) = (rep, s', b') ->
-            agree b' /\ queues_ok s' /\ dom_same s s' /\ b_crashed b' = b_crashed b /\ b_out b' = b_out b).
+            agree b' /\ queues_ok s' /\ dom_same s s' /\ b_crashed b' = b_crashed b /\ b_out b' = b_out b /\ blk_change c rep b b').
   { intros E. destruct (process_frame now s c f oracle) as [r s1] eqn:Ep. injection E as E1 E2 E3. subst.
     destruct (process_frame_queues _ _ _ _ _ _ _ _ Q Hc Hg Ep) as [Q1 D1].
-    split; [exact HA|]. split; [exact Q1|]. split; [exact D1|]. split; reflexivity. }
+    split; [exact HA|]. split; [exact Q1|]. split; [exact D1|]. split; [reflexivity|]. split; [reflexivity|]. left. reflexivity. }
   destruct f as [| | | | |l| | | | | | |]; try (apply Pass; exact H).
   destruct l as [|first rest]; [apply Pass; exact H|].
   destruct first as [| | |nm| | | | | | | | |]; try (apply Pass; exact H).
@@ -774,23 +782,26 @@ Proof.
   destruct (beq (upper (trim nm)) (bs "EXEC")).
   { unfold bh_exec in H. cbv zeta in H.
     destruct (negb (c_intx cn)).
-    { injection H as E1 E2 E3. subst. split; [exact HA|]. split; [exact Q|]. split; [apply dom_same_refl|]. split; reflexivity. }
+    { injection H as E1 E2 E3. subst. split; [exact HA|]. split; [exact Q|]. split; [apply dom_same_refl|].
+      split; [reflexivity|]. split; [reflexivity|]. left. reflexivity. }
     destruct (existsb _ (c_watched cn)).
     { injection H as E1 E2 E3. subst. destruct (queues_ok_set_conn s s c cn (clear_tx cn) eq_refl Hc Q (clear_tx_queue cn)) as [Q1 D1].
-      split; [exact HA|]. split; [exact Q1|]. split; [exact D1|]. split; reflexivity. }
+      split; [exact HA|]. split; [exact Q1|]. split; [exact D1|]. split; [reflexivity|]. split; [reflexivity|]. left. reflexivity. }
     revert H. destruct (bexec_queue _ _ _ _ _ _) as [[reps s2] b2] eqn:E. intros H. injection H as E1 E2 E3. subst.
     destruct (queues_ok_set_conn s s c cn (clear_tx cn) eq_refl Hc Q (clear_tx_queue cn)) as [Q1 D1].
-    destruct (bexec_queue_inv _ _ _ _ _ _ _ _ _ HA (Q c cn Hc) E) as (G1 & G2 & G3 & G4).
+    destruct (bexec_queue_inv _ _ _ _ _ _ _ _ _ HA (Q c cn Hc) E) as (G1 & G2 & G3 & G4 & G5).
     destruct (rel_queues_dom _ _ Q1 G2) as [Q2 D2].
-    split; [exact G1|]. split; [exact Q2|]. split; [intros c'; etransitivity; [apply D2|apply D1]|]. split; assumption. }
+    split; [exact G1|]. split; [exact Q2|]. split; [intros c'; etransitivity; [apply D2|apply D1]|].
+    split; [exact G3|]. split; [exact G4|]. left. exact G5. }
   destruct (beq (upper (trim nm)) (bs "DISCARD") || beq (upper (trim nm)) (bs "WATCH")
             || beq (upper (trim nm)) (bs "UNWATCH") || beq (upper (trim nm)) (bs "AUTH")); [apply Pass; exact H|].
   destruct (c_intx cn && negb (mem_name (upper (trim nm)) tx_not_queued)) eqn:Eq; [apply Pass; exact H|].
   assert (Hg' : bpop_parts (FBulk nm :: rest) = true -> zlookup c (b_blk b) = None /\ exists cn0, zlookup c (s_conns s) = Some cn0).
   { intros _. split; [exact Hnb|]. exists cn. exact Hc. }
-  destruct (bnormal_inv _ _ _ _ _ _ _ _ _ _ _ HA Hg' H) as (G1 & G2 & G3 & G4).
+  destruct (bnormal_inv _ _ _ _ _ _ _ _ _ _ _ HA Hg' H) as (G1 & G2 & G3 & G4 & G5).
   destruct (rel_queues_dom _ _ Q G2) as [Q2 D2].
-  split; [exact G1|]. split; [exact Q2|]. split; [exact D2|]. split; assumption.
+  split; [exact G1|]. split; [exact Q2|]. split; [exact D2|]. split; [exact G3|]. split; [exact G4|].
+  destruct (bpop_parts (FBulk nm :: rest)); [exact G5|left; exact G5].
 Qed.
 
 (** ================= the invariant of the transition system ================= *)
@@ -824,7 +835,7 @@ Proof.
     apply andb_true_iff in Hok. destruct Hok as [Hok Hq]. apply andb_true_iff in Hok. destruct Hok as [Hnb Hg].
     apply negb_true_iff in Hnb, Hg. apply is_blocked_false in Hnb.
     unfold frame_step. destruct (bprocess_frame now s b c f None oms) as [[rep s'] b'] eqn:E. cbn [fst snd].
-    destruct (bprocess_frame_inv _ _ _ _ _ _ _ _ _ _ _ HA Q H0 Hc Hnb Hg E) as (G1 & G2 & G3 & G4 & G5).
+    destruct (bprocess_frame_inv _ _ _ _ _ _ _ _ _ _ _ HA Q H0 Hc Hnb Hg E) as (G1 & G2 & G3 & G4 & G5 & G6).
     right. split; [destruct rep; exact G1|]. split; [exact G2|]. apply G3. exact H0.
   - (* wake-ups *)
     destruct (agree_process_wakeups s b (or_intror HA)) as [H|H]; [left; exact H|right].
@@ -857,3 +868,310 @@ Proof.
 Qed.
 Theorem reach_inv pw st : reach pw st -> inv st.
 Proof. induction 1; [apply inv_init|apply inv_step; assumption]. Qed.
+
+(** ================= what the asynchronous phases write ================= *)
+Lemma wrote_nil b : wrote b b [].
+Proof. reflexivity. Qed.
+
+(** timeouts: a null array to each connection that was Blocked and had an expired registration,
+    one each; those connections are no longer Blocked *)
+Lemma timeout_fold_out : forall ex b,
+  exists new, b_out (fold_left timeout_conn ex b) = rev new ++ b_out b
+    /\ (forall c f, In (c, f) new -> f = FNullArray /\ In c ex /\ zlookup c (b_blk b) <> None)
+    /\ NoDup (map fst new)
+    /\ (forall c, In c ex -> zlookup c (b_blk b) <> None -> In c (map fst new)).
+Proof.
+  induction ex as [|c0 ex IH]; intros b; cbn [fold_left].
+  - exists []. repeat split; try (intros; contradiction). constructor.
+  - destruct (IH (timeout_conn b c0)) as (new & H1 & H2 & H3 & H4).
+    unfold timeout_conn in *. destruct (zlookup c0 (b_blk b)) as [st|] eqn:E.
+    + exists ((c0, FNullArray) :: new). cbn [unblock emit with_blk b_out b_blk] in *.
+      split; [rewrite H1; cbn [rev]; rewrite <- app_assoc; reflexivity|].
+      split; [|split].
+      * intros c f [Hin|Hin].
+        -- injection Hin as <- <-. split; [reflexivity|]. split; [left; reflexivity|congruence].
+        -- destruct (H2 c f Hin) as (G1 & G2 & G3). split; [exact G1|]. split; [right; exact G2|].
+           intros Hn. apply G3. destruct (Z.eq_dec c c0) as [->|Hne]; [apply zlookup_zremove_same|].
+           rewrite zlookup_zremove_other by exact Hne. exact Hn.
+      * cbn [map fst]. constructor; [|exact H3]. intros Hin. apply in_map_iff in Hin. destruct Hin as [[c f] [Hc Hin]].
+        cbn [fst] in Hc. subst c. destruct (H2 c0 f Hin) as (_ & _ & G3). apply G3. apply zlookup_zremove_same.
+      * intros c [Hc|Hc] Hb; [subst; left; reflexivity|]. destruct (Z.eq_dec c c0) as [->|Hne]; [left; reflexivity|].
+        right. apply H4; [exact Hc|]. rewrite zlookup_zremove_other by exact Hne. exact Hb.
+    + exists new. split; [exact H1|]. split; [|split; [exact H3|]].
+      * intros c f Hin. destruct (H2 c f Hin) as (G1 & G2 & G3). split; [exact G1|]. split; [right; exact G2|exact G3].
+      * intros c [Hc|Hc] Hb; [subst; congruence|]. apply H4; assumption.
+Qed.
+
+Lemma process_timeouts_wrote now b : agree b ->
+  exists new, wrote b (process_timeouts now b) new
+    /\ NoDup (map fst new)
+    /\ (forall c f, In (c, f) new ->
+          f = FNullArray /\ zlookup c (b_blk (process_timeouts now b)) = None /\
+          exists st d, zlookup c (b_blk b) = Some st /\ bl_dl st = Some d /\ d <= now)
+    /\ (forall c, zlookup c (b_blk b) <> None -> zlookup c (b_blk (process_timeouts now b)) = None -> In c (map fst new))
+    /\ (forall c, zlookup c (b_blk b) = None -> zlookup c (b_blk (process_timeouts now b)) = None).
+Proof.
+  intros (A1 & A2 & A3 & A4). unfold process_timeouts.
+  destruct (expire_reg now (b_reg b)) as [ex r'] eqn:Ee.
+  assert (Hex : ex = fst (expire_reg now (b_reg b))) by (rewrite Ee; reflexivity).
+  destruct (timeout_fold ex (with_reg b r')) as (_ & _ & _ & F4).
+  destruct (timeout_fold_out ex (with_reg b r')) as (new & H1 & H2 & H3 & H4).
+  cbn [with_reg b_out b_blk] in *.
+  exists new. split; [exact H1|]. split; [exact H3|]. split; [|split].
+  - intros c f Hin. destruct (H2 c f Hin) as (G1 & G2 & G3). split; [exact G1|]. split.
+    + rewrite F4. apply existsb_eqb_in in G2. rewrite G2. reflexivity.
+    + rewrite Hex in G2. apply in_expired_ids in G2. destruct G2 as (rk & q & w & K1 & K2 & K3 & K4).
+      destruct (A1 _ _ _ K1 K2) as (st & T1 & _ & _ & T4 & _). rewrite K4 in T1.
+      unfold expired_w in K3. rewrite T4 in K3. destruct (bl_dl st) as [d|] eqn:Ed; [|discriminate].
+      exists st, d. split; [exact T1|]. split; [exact Ed|]. apply Z.leb_le. exact K3.
+  - intros c Hb Hn. rewrite F4 in Hn. destruct (existsb (Z.eqb c) ex) eqn:Eex.
+    + apply H4; [apply existsb_eqb_in; exact Eex|exact Hb].
+    + congruence.
+  - intros c Hn. rewrite F4. destruct (existsb (Z.eqb c) ex); [reflexivity|exact Hn].
+Qed.
+
+(** wake-ups: [key, element] to connections that were Blocked on that key, one each *)
+Lemma wake_client_out s b u W : agreeW b (u :: W) ->
+  let b' := snd (wake_client s b u) in
+  (b_out b' = b_out b /\ b_blk b' = b_blk b) \/
+  (exists st v, zlookup (u_conn u) (b_blk b) = Some st /\ bmem (u_key u) (bl_keys st) = true /\
+                b_out b' = (u_conn u, FArray [FBulk (u_key u); FBulk v]) :: b_out b /\
+                b_blk b' = zremove (u_conn u) (b_blk b)).
+Proof.
+  intros HA. cbv zeta. unfold wake_client.
+  destruct HA as (_ & A2 & _). destruct (A2 u (or_introl eq_refl)) as (st & U1 & _ & U3 & _).
+  cbn [with_wake b_blk] in U1.
+  destruct (on_key (get_db s (u_db u)) (u_key u) (e_pop (u_left u))) as [r d'].
+  destruct r; rewrite ?U1; cbn [snd]; try (left; split; reflexivity).
+  right. exists st, b0. repeat split; first [assumption|reflexivity].
+Qed.
+Definition delivery_of (b : blocking) (c : Z) (f : frame) : Prop :=
+  exists st k v, zlookup c (b_blk b) = Some st /\ bmem k (bl_keys st) = true /\ f = FArray [FBulk k; FBulk v].
+
+Lemma wake_step_eq s b u : wake_step (s, b) u = if b_crashed b then (s, b) else wake_client s b u.
+Proof. reflexivity. Qed.
+Lemma wake_fold_out : forall l s b,
+  (b_crashed b = true \/ agreeW b (l ++ b_wake b)) ->
+  exists new, b_out (snd (fold_left wake_step l (s, b))) = rev new ++ b_out b
+    /\ (forall c f, In (c, f) new -> In c (map u_conn l) /\ delivery_of b c f)
+    /\ NoDup (map fst new)
+    /\ (forall c, zlookup c (b_blk (snd (fold_left wake_step l (s, b)))) =
+                  if existsb (Z.eqb c) (map fst new) then None else zlookup c (b_blk b)).
+Proof.
+  induction l as [|u l IH]; intros s b H; cbn [fold_left snd].
+  - exists []. repeat split; try (intros; contradiction). constructor.
+  - rewrite wake_step_eq. destruct (b_crashed b) eqn:Ec.
+    + destruct (IH s b (or_introl Ec)) as (new & H1 & H2 & H3 & H4). exists new. split; [exact H1|].
+      split; [|split; assumption]. intros c f Hin. destruct (H2 c f Hin) as [G1 G2]. split; [right; exact G1|exact G2].
+    + destruct H as [H|H]; [congruence|]. cbn [app] in H.
+      pose proof (agree_wake_client s b u (l ++ b_wake b) H) as Hnext. rewrite <- (wake_client_wake s b u) in Hnext.
+      pose proof (wake_client_out s b u (l ++ b_wake b) H) as Hout. cbv zeta in Hout.
+      destruct (wake_client s b u) as [s1 b1]. cbn [snd] in *.
+      destruct (IH s1 b1 Hnext) as (new & H1 & H2 & H3 & H4).
+      assert (Hnd : ~ In (u_conn u) (map u_conn l)).
+      { destruct H as (_ & _ & A3 & _). unfold wakes_unique in A3. cbn [with_wake b_wake map] in A3.
+        inversion A3; subst. intros Hin. apply H5. rewrite map_app. apply in_or_app. left. exact Hin. }
+      destruct Hout as [[O1 O2]|(st & v & O1 & O2 & O3 & O4)].
+      * exists new. rewrite H1, O1. split; [reflexivity|]. split; [|split; [exact H3|]].
+        -- intros c f Hin. destruct (H2 c f Hin) as [G1 G2]. split; [right; exact G1|].
+           unfold delivery_of in *. rewrite O2 in G2. exact G2.
+        -- intros c. rewrite H4, O2. reflexivity.
+      * exists ((u_conn u, FArray [FBulk (u_key u); FBulk v]) :: new). rewrite H1, O3.
+        split; [cbn [rev]; rewrite <- app_assoc; reflexivity|]. split; [|split].
+        -- intros c f [Hin|Hin].
+           ++ injection Hin as <- <-. split; [left; reflexivity|]. exists st, (u_key u), v. repeat split; assumption.
+           ++ destruct (H2 c f Hin) as [G1 G2]. split; [right; exact G1|].
+              destruct G2 as (st2 & k2 & v2 & K1 & K2 & K3). exists st2, k2, v2. split; [|split; assumption].
+              rewrite O4 in K1. eapply zlookup_zremove_some. exact K1.
+        -- cbn [map fst]. constructor; [|exact H3]. intros Hin. apply in_map_iff in Hin. destruct Hin as [[c f] [Hc Hin]].
+           cbn [fst] in Hc. subst c. destruct (H2 _ _ Hin) as [G1 _]. contradiction.
+        -- intros c. rewrite H4, O4. cbn [map fst existsb]. destruct (c =? u_conn u) eqn:E.
+           ++ apply Z.eqb_eq in E. subst c. cbn [orb]. destruct (existsb _ (map fst new)); [reflexivity|apply zlookup_zremove_same].
+           ++ cbn [orb]. destruct (existsb _ (map fst new)); [reflexivity|]. apply zlookup_zremove_other. lia.
+Qed.
+
+Lemma process_wakeups_wrote s b : agree b ->
+  exists new, wrote b (snd (process_wakeups s b)) new
+    /\ NoDup (map fst new)
+    /\ (forall c f, In (c, f) new -> delivery_of b c f /\ zlookup c (b_blk (snd (process_wakeups s b))) = None)
+    /\ (forall c, zlookup c (b_blk b) <> None -> zlookup c (b_blk (snd (process_wakeups s b))) = None -> In c (map fst new))
+    /\ (forall c, zlookup c (b_blk b) = None -> zlookup c (b_blk (snd (process_wakeups s b))) = None).
+Proof.
+  intros HA. unfold process_wakeups.
+  assert (H0 : b_crashed (with_wake b (skipn 32 (b_wake b))) = true \/
+               agreeW (with_wake b (skipn 32 (b_wake b))) (firstn 32 (b_wake b) ++ b_wake (with_wake b (skipn 32 (b_wake b))))).
+  { right. cbn [with_wake b_wake]. unfold agreeW. rewrite firstn_skipn. apply agreeW_self in HA. unfold agreeW in HA.
+    destruct b; exact HA. }
+  destruct (wake_fold_out _ s _ H0) as (new & H1 & H2 & H3 & H4). cbn [with_wake b_out b_blk] in *.
+  exists new. split; [exact H1|]. split; [exact H3|]. split; [|split].
+  - intros c f Hin. destruct (H2 c f Hin) as [_ G2]. split; [exact G2|].
+    rewrite H4. replace (existsb (Z.eqb c) (map fst new)) with true; [reflexivity|].
+    symmetry. apply existsb_eqb_in. apply in_map_iff. exists (c, f). split; [reflexivity|exact Hin].
+  - intros c Hb Hn. rewrite H4 in Hn. destruct (existsb (Z.eqb c) (map fst new)) eqn:E; [apply existsb_eqb_in; exact E|congruence].
+  - intros c Hn. rewrite H4. destruct (existsb (Z.eqb c) (map fst new)); [reflexivity|exact Hn].
+Qed.
+
+(** ================= theorems over reachable states ================= *)
+Theorem reach_agree pw st : reach pw st -> b_crashed (snd st) = false -> agree (snd st).
+Proof. intros H Hc. destruct (reach_inv pw st H) as [H1|[H1 _]]; [congruence|exact H1]. Qed.
+
+Lemma reg_get_entries b rk w : In w (reg_get (b_reg b) rk) -> exists q, In (rk, q) (b_reg b) /\ In w q.
+Proof. apply reg_get_in. Qed.
+
+(** waiter in the registry <-> connection Blocked on that key (or its wake-up is under way) *)
+Theorem waiter_blocked pw st : reach pw st -> b_crashed (snd st) = false ->
+  forall db k w, In w (reg_get (b_reg (snd st)) (db, k)) ->
+  exists bst, zlookup (w_conn w) (b_blk (snd st)) = Some bst /\ bl_db bst = db /\ bmem k (bl_keys bst) = true
+              /\ bl_dl bst = w_dl w /\ bl_left bst = w_left w.
+Proof.
+  intros H Hc db k w Hw. destruct (reach_agree pw st H Hc) as (A1 & _).
+  destruct (reg_get_in _ _ _ Hw) as [q [H1 H2]].
+  destruct (A1 _ _ _ H1 H2) as (bst & T1 & T2 & T3 & T4 & T5 & _). cbn [fst snd] in *.
+  exists bst. repeat split; congruence.
+Qed.
+Theorem blocked_waiter pw st : reach pw st -> b_crashed (snd st) = false ->
+  forall c bst, zlookup c (b_blk (snd st)) = Some bst ->
+  (forall k, bmem k (bl_keys bst) = true -> exists w, In w (reg_get (b_reg (snd st)) (bl_db bst, k)) /\ w_conn w = c)
+  \/ (exists u, In u (b_wake (snd st)) /\ u_conn u = c /\ u_db u = bl_db bst /\ bmem (u_key u) (bl_keys bst) = true
+                /\ forall rk q, In (rk, q) (b_reg (snd st)) -> cnt c q = O).
+Proof.
+  intros H Hc c bst Hb. destruct (reach_agree pw st H Hc) as (A1 & A2 & A3 & A4).
+  destruct (wakes_for c (b_wake (snd st))) as [|u l] eqn:Ew.
+  - left. intros k Hk. apply cnt_nonzero. eapply A4; eauto.
+  - right. assert (Hin : In u (wakes_for c (b_wake (snd st)))) by (rewrite Ew; left; reflexivity).
+    unfold wakes_for in Hin. apply filter_In in Hin. destruct Hin as [Hin Hcu]. apply Z.eqb_eq in Hcu.
+    destruct (A2 u Hin) as (st2 & T1 & T2 & T3 & T4 & T5). rewrite Hcu, Hb in T1. injection T1 as <-.
+    exists u. repeat split; try assumption. rewrite <- Hcu. exact T5.
+Qed.
+(** once served or timed out (not Blocked): no registration, no wake-up *)
+Theorem no_leftover pw st : reach pw st -> b_crashed (snd st) = false ->
+  forall c, zlookup c (b_blk (snd st)) = None ->
+  (forall rk, cnt c (reg_get (b_reg (snd st)) rk) = O) /\ wakes_for c (b_wake (snd st)) = [].
+Proof.
+  intros H Hc c Hn. destruct (not_blocked_clean _ c (reach_agree pw st H Hc) Hn) as [H1 H2]. split; [|exact H2].
+  intros rk. apply cnt_zero. intros w Hw. destruct (reg_get_in _ _ _ Hw) as [q [G1 G2]].
+  pose proof (H1 _ _ G1) as Hz. rewrite cnt_zero in Hz. apply Hz. exact G2.
+Qed.
+(** at most one wake-up per connection is under way *)
+Theorem one_wakeup_each pw st : reach pw st -> b_crashed (snd st) = false -> NoDup (map u_conn (b_wake (snd st))).
+Proof. intros H Hc. destruct (reach_agree pw st H Hc) as (_ & _ & A3 & _). exact A3. Qed.
+
+(** timeouts: nil only, only to connections Blocked with a deadline that has passed, one each *)
+Theorem timeouts_reply pw s b now : reach pw (s, b) -> b_crashed b = false ->
+  let b' := snd (step (s, b) (ETimeouts now)) in
+  exists new, wrote b b' new /\ NoDup (map fst new)
+    /\ (forall c f, In (c, f) new ->
+          f = FNullArray /\ zlookup c (b_blk b') = None /\
+          exists bst d, zlookup c (b_blk b) = Some bst /\ bl_dl bst = Some d /\ d <= now)
+    /\ (forall c, zlookup c (b_blk b) <> None -> zlookup c (b_blk b') = None -> In c (map fst new))
+    /\ (forall c, zlookup c (b_blk b) = None -> zlookup c (b_blk b') = None).
+Proof.
+  intros H Hc. cbn [step]. rewrite Hc. cbn [snd]. apply process_timeouts_wrote. exact (reach_agree pw (s, b) H Hc).
+Qed.
+(** wake-ups: [key, element] only, only to connections Blocked on that key, one each *)
+Theorem wakeups_reply pw s b : reach pw (s, b) -> b_crashed b = false ->
+  let b' := snd (step (s, b) EWakeups) in
+  exists new, wrote b b' new /\ NoDup (map fst new)
+    /\ (forall c f, In (c, f) new -> delivery_of b c f /\ zlookup c (b_blk b') = None)
+    /\ (forall c, zlookup c (b_blk b) <> None -> zlookup c (b_blk b') = None -> In c (map fst new))
+    /\ (forall c, zlookup c (b_blk b) = None -> zlookup c (b_blk b') = None).
+Proof.
+  intros H Hc. cbn [step]. rewrite Hc. apply process_wakeups_wrote. exact (reach_agree pw (s, b) H Hc).
+Qed.
+(** a request: at most one reply, to the issuing connection; no reply exactly when the request
+    was answered NoResponse, and only then can the connection have become Blocked; nobody else's
+    Blocked state changes *)
+Theorem frame_reply pw s b now c f oms : reach pw (s, b) -> b_crashed b = false ->
+  ok (s, b) (EFrame now c f oms) = true ->
+  let b' := snd (step (s, b) (EFrame now c f oms)) in
+  exists rep, (match rep with FNoResponse => wrote b b' [] | _ => wrote b b' [(c, rep)] end)
+              /\ blk_change c rep b b' /\ zlookup c (b_blk b) = None.
+Proof.
+  intros H Hc Hok. destruct (reach_inv pw _ H) as [Hi|(HA & Q & H0)]; [cbn [snd] in Hi; congruence|].
+  cbn [fst snd] in *. cbn [step ok] in *. rewrite Hc.
+  destruct (zlookup c (s_conns s)) as [cn|] eqn:Hcn; [|discriminate].
+  apply andb_true_iff in Hok. destruct Hok as [Hok Hq]. apply andb_true_iff in Hok. destruct Hok as [Hnb Hg].
+  apply negb_true_iff in Hnb, Hg. apply is_blocked_false in Hnb.
+  unfold frame_step. destruct (bprocess_frame now s b c f None oms) as [[rep s'] b1] eqn:E. cbn [snd].
+  destruct (bprocess_frame_inv _ _ _ _ _ _ _ _ _ _ _ HA Q H0 Hcn Hnb Hg E) as (G1 & G2 & G3 & G4 & G5 & G6).
+  exists rep. split; [|split; [|exact Hnb]].
+  - unfold wrote. destruct rep; cbn [emit b_out rev app]; rewrite G5; reflexivity.
+  - unfold blk_change in *. destruct rep; exact G6.
+Qed.
+(** the other events write nothing and block or unblock nobody *)
+Theorem connect_disconnect_silent s b e : b_crashed b = false ->
+  (match e with EConnect _ | EDisconnect _ => True | _ => False end) ->
+  b_out (snd (step (s, b) e)) = b_out b /\ b_blk (snd (step (s, b) e)) = b_blk b /\ b_reg (snd (step (s, b) e)) = b_reg b.
+Proof.
+  intros Hc He. cbn [step]. rewrite Hc. destruct e; try contradiction; cbn [snd].
+  - repeat split.
+  - destruct (is_blocked b c); repeat split.
+Qed.
+
+(** ---- the deadline of a blocking call is its arrival time plus its timeout; no timeout, no deadline ---- *)
+Lemma fast_path_reply left : forall keys d r d', fast_path left d keys = (Some r, d') -> r <> FNoResponse.
+Proof.
+  induction keys as [|k keys IH]; intros d r d' H; cbn [fast_path] in H; [discriminate|].
+  destruct (on_key d k (e_pop left)) as [r0 d0]. destruct r0; try (eapply IH; exact H); injection H as <- _; discriminate.
+Qed.
+Theorem blocking_call_deadline left now s b c dbi parts oms rep s' b' cn :
+  zlookup c (s_conns s) = Some cn ->
+  h_bpop left now s b c dbi parts oms = (rep, s', b') ->
+  (rep <> FNoResponse /\ b' = b) \/
+  (rep = FNoResponse /\ exists tmo keys,
+     timeout_of (last parts FNull) oms = Some tmo /\
+     zlookup c (b_blk b') = Some {| bl_db := dbi; bl_keys := keys; bl_dl := option_map (fun ms => now + ms) tmo; bl_left := left |}).
+Proof.
+  intros Hcn H. unfold h_bpop in H.
+  destruct (len parts <? 3); [left; injection H as <- _ <-; split; [discriminate|reflexivity]|].
+  destruct (timeout_of (last parts FNull) oms) as [tmo|]; [|left; injection H as <- _ <-; split; [discriminate|reflexivity]].
+  destruct (all_bulks (removelast (tl parts))) as [keys|]; [|left; injection H as <- _ <-; split; [discriminate|reflexivity]].
+  destruct (fast_path left (get_db s dbi) keys) as [[r0|] d'] eqn:Ef.
+  - left. injection H as <- _ <-. split; [eapply fast_path_reply; exact Ef|reflexivity].
+  - right. rewrite Hcn in H. injection H as <- _ <-. split; [reflexivity|]. exists tmo, keys. split; [reflexivity|].
+    cbn [set_blocked with_blk b_blk]. apply zlookup_zset_same.
+Qed.
+Lemma timeout_of_forever arg oms : timeout_of arg oms = Some None ->
+  exists t, arg = FBulk t /\ (match oms with Some z => z | None => simple_timeout t end) = 0.
+Proof.
+  unfold timeout_of. destruct arg; try discriminate. intros H. exists b. split; [reflexivity|].
+  destruct (_ <? 0); [discriminate|]. destruct (_ =? 0) eqn:E; [lia|discriminate].
+Qed.
+
+(** ================= FIFO: the queue of a key ================= *)
+(** a blocking call joins at the back of every queue it names *)
+Theorem fifo_join_back db c left dl keys r rk :
+  exists n, reg_get (register r db c keys left dl) rk = reg_get r rk ++ repeat (mkw c dl left) n
+            /\ (n <> O <-> (fst rk = db /\ bmem (snd rk) keys = true)).
+Proof. apply reg_get_register. Qed.
+(** a push serves the HEAD of the key's queue: its wake-up goes to the back of the wake queue,
+    the others keep their order (the served connection leaves every queue of that database) *)
+Theorem fifo_serve_head b db k w q :
+  reg_get (b_reg b) (db, k) = w :: q ->
+  let b' := notify_key_ready b db k in
+  b_wake b' = b_wake b ++ [{| u_conn := w_conn w; u_db := db; u_key := k; u_left := w_left w |}]
+  /\ reg_get (b_reg b') (db, k) = filter (not_conn (w_conn w)) q
+  /\ forall k2, rk_eqb (db, k2) (db, k) = false ->
+       reg_get (b_reg b') (db, k2) = filter (not_conn (w_conn w)) (reg_get (b_reg b) (db, k2)).
+Proof.
+  intros Hg. cbv zeta. unfold notify_key_ready. rewrite Hg. cbn [with_wake with_reg b_wake b_reg].
+  split; [reflexivity|]. split.
+  - rewrite reg_get_unregister. cbn [fst]. rewrite Z.eqb_refl, reg_get_put_same. reflexivity.
+  - intros k2 Hne. rewrite reg_get_unregister. cbn [fst]. rewrite Z.eqb_refl, reg_get_put_other by exact Hne. reflexivity.
+Qed.
+(** timeouts and cleanups only take waiters out: the others keep their order *)
+Theorem fifo_expire_keeps_order now r rk : reg_get (snd (expire_reg now r)) rk = filter (live_w now) (reg_get r rk).
+Proof. apply reg_get_expire. Qed.
+Theorem fifo_unregister_keeps_order r db c rk :
+  reg_get (unregister r db c) rk = if fst rk =? db then filter (not_conn c) (reg_get r rk) else reg_get r rk.
+Proof. apply reg_get_unregister. Qed.
+(** the wake queue is served from the front, 32 at a time *)
+Theorem fifo_wake_queue s b : b_crashed b = false ->
+  b_wake (snd (process_wakeups s b)) = skipn 32 (b_wake b) \/ b_crashed (snd (process_wakeups s b)) = true.
+Proof.
+  intros _. left. unfold process_wakeups.
+  assert (G : forall l sb, b_wake (snd (fold_left wake_step l sb)) = b_wake (snd sb)).
+  { induction l as [|u l IH]; intros sb; cbn [fold_left]; [reflexivity|]. rewrite IH.
+    unfold wake_step. destruct (b_crashed (snd sb)); [reflexivity|]. apply wake_client_wake. }
+  rewrite G. reflexivity.
+Qed.
